@@ -941,10 +941,13 @@ func initParamsKeeper(appCodec codec.BinaryCodec, legacyAmino *codec.LegacyAmino
 	paramsKeeper.Subspace(ibchost.ModuleName)
 	paramsKeeper.Subspace(icacontrollertypes.SubModuleName)
 	paramsKeeper.Subspace(icahosttypes.SubModuleName)
-	paramsKeeper.Subspace(cfevestingmoduletypes.ModuleName)
-	paramsKeeper.Subspace(cfesignaturemoduletypes.ModuleName)
-	paramsKeeper.Subspace(cfemintermoduletypes.ModuleName)
-	paramsKeeper.Subspace(cfedistributormoduletypes.ModuleName)
+	// the legacy key tables of the custom modules are registered here and not only by the v1.2.0 upgrade handler:
+	// what the handler registers lives in process memory, so a node restarted after the upgrade had no key tables
+	// and treated a legacy parameter change proposal differently from a node that was still running
+	paramsKeeper.Subspace(cfevestingmoduletypes.ModuleName).WithKeyTable(cfevestingmoduletypes.ParamKeyTable())         //nolint:staticcheck
+	paramsKeeper.Subspace(cfesignaturemoduletypes.ModuleName).WithKeyTable(cfesignaturemoduletypes.ParamKeyTable())     //nolint:staticcheck
+	paramsKeeper.Subspace(cfemintermoduletypes.ModuleName).WithKeyTable(cfemintermoduletypes.ParamKeyTable())           //nolint:staticcheck
+	paramsKeeper.Subspace(cfedistributormoduletypes.ModuleName).WithKeyTable(cfedistributormoduletypes.ParamKeyTable()) //nolint:staticcheck
 	// this line is used by starport scaffolding # stargate/app/paramSubspace
 
 	return paramsKeeper
